@@ -1,4 +1,5 @@
 import CpModel.Gen.C12Tables
+import CpModel.Gen.C12NormTables
 import CpModel.HeaderEnc
 /-!
   C12 — escaping model (core Lean only).
@@ -215,5 +216,42 @@ def accessLineMarked (atoms : List (Text × Text)) : Option (List (Char × Bool)
 
 def accessLine (atoms : List (Text × Text)) : Option Text :=
   (accessLineMarked atoms).map fun l => l.map Prod.fst
+
+/-! ### round 2: custom templates / formats, and the access log with guarded backslashes -/
+
+/-- `get_error_page` with a custom `error_page.<code>` / `error_page.default` TEMPLATE (a file the
+    configuration names): the same escaped values, `template % kwargs` over the file's pieces -/
+def errorPageWith (tpl : List Piece) (status message traceback version : Text) : Option Text :=
+  render htmlEscape
+    [(kStatus, status), (kMessage, message), (kTraceback, traceback), (kVersion, version)] tpl
+
+/-- the entry for a custom `access_log_format` (pieces of the configured format) -/
+def accessLineWithMarked (esc : Text → Text) (fmt : List Piece) (atoms : List (Text × Text)) :
+    Option (List (Char × Bool)) :=
+  renderMarked esc atoms fmt
+
+/-- does the text start with a (possibly empty) run of backslashes that a `"` or the end follows? -/
+def runEndsAtQuote : Text → Bool
+  | [] => true
+  | c :: rest => if c = '\\' then runEndsAtQuote rest else c = '"'
+
+/-- proposed fix C12-access-log-backslash-guard:
+    `re.sub(r'\\+(?="|\Z)', r'\g<0>\g<0>', v)` — every backslash of a run that a double quote or
+    the end of the value follows is written twice -/
+def guardBackslashes : Text → Text
+  | [] => []
+  | c :: rest =>
+    if c = '\\' ∧ runEndsAtQuote rest = true then '\\' :: '\\' :: guardBackslashes rest
+    else c :: guardBackslashes rest
+
+/-- the per-atom escaping of `LogManager.access` WITH the proposed fix -/
+def logEscapeGuarded (s : Text) : Text := logEscape (guardBackslashes s)
+
+/-- the per-atom escaping of the LIVE `LogManager.access` (probed flag in the generated table) -/
+def logEscapeLive (s : Text) : Text :=
+  if CpModel.Gen.C12N.logBackslashGuard then logEscapeGuarded s else logEscape s
+
+def accessLineLive (fmt : List Piece) (atoms : List (Text × Text)) : Option Text :=
+  (accessLineWithMarked logEscapeLive fmt atoms).map fun l => l.map Prod.fst
 
 end CpModel.Escape
